@@ -156,8 +156,8 @@ func runOne(c *vhlib.Ctx, stream []byte, compare bool, tag string) {
 		if consumed > 4+int(L) && !(L > frameCap) {
 			c.Violate("overread:"+shape, fmt.Sprintf("consumed %d bytes of a frame of 4+%d", consumed, L), []string{op})
 		}
-		if L > frameCap && (err == nil || consumed != 4) {
-			c.Violate("cap:"+shape, fmt.Sprintf("frame of %d bytes above the cap not refused at once (err=%v consumed=%d)", L, err, consumed), []string{op})
+		if L > frameCap && p == "" && err == nil {
+			c.Violate("cap:"+shape, fmt.Sprintf("frame of %d bytes above the 1 MiB cap not refused (consumed=%d)", L, consumed), []string{op})
 		}
 		if p == "" && err == nil && m != nil && consumed != 4+int(L) {
 			c.Violate("short-consume:"+shape, fmt.Sprintf("message returned but consumed %d != 4+%d", consumed, L), []string{op})
@@ -592,6 +592,16 @@ func main() {
 			}
 		}
 		return
+	}
+	// frames just above the cap with the whole body delivered (every dispatch class:
+	// unknown id, bitfield, piece, extended unknown / known sub-ids, fixed-length id)
+	for _, id := range []int{10, 5, 7, 20, 20, 4, 255} {
+		L := uint32(frameCap + 1 + c.R.Intn(16))
+		payload := c.R.Bytes(int(L) - 1)
+		if id == 20 {
+			payload[0] = byte(c.R.PickInt(0, 1, 2, 3, 9))
+		}
+		runOne(c, append(frame(L, id, payload), 1, 2, 3), true, "overcap-full")
 	}
 	maxL := 8
 	if c.Tier == "thorough" {
